@@ -244,6 +244,16 @@ def drive(ctx, rec, part, strategy, check, n_examples, max_novel=4, shrink=True,
         except Exception:
             if state["harness"] is not None:
                 raise state["harness"]
+            if state["last"] is not None:
+                # Hypothesis itself failed while shrinking: keep the last failing case un-minimised
+                case, failure = state["last"]
+                session.add(failure.signature)
+                rec.add_failure(failure, case, part)
+                rec.notes.append("shrinking aborted by a Hypothesis internal error in part %s" % tag)
+                rec.parts[tag] += state["n"]
+                remaining -= max(1, min(state["n"], remaining // 2))
+                rnd += 1
+                continue
             raise HarnessError("hypothesis driver failed in part %s\n%s" % (part, traceback.format_exc()))
 
 
